@@ -24,53 +24,53 @@ import (
 )
 
 type cpInfo struct {
-	K       int   `json:"k"`
-	Fi      int64 `json:"fi"`
-	ShFi    int64 `json:"shfi"`
-	Kind    int   `json:"kind"`    // 1 rsync, 2 bsdiff
-	MOff    int64 `json:"moff"`    // reader offset (decompressed stream)
-	SrcOff  int64 `json:"srcoff"`  // offset of the source checkpoint
-	WOff    int64 `json:"woff"`    // writer checkpoint offset (bytes of the new file produced)
-	OldOff  int64 `json:"oldoff"`  // bsdiff: old offset
-	Tgt     int64 `json:"tgt"`     // bsdiff: target index
-	OvRead  int64 `json:"ovread"`  // overlay writer: read offset (-1 if not an overlay writer)
-	OvOff   int64 `json:"ovoff"`   // overlay writer: overlay offset
-	NTrans  int   `json:"ntrans"`  // overlay bowl lists
-	NOver   int   `json:"nover"`
-	NMove   int   `json:"nmove"`
-	GobLen  int   `json:"goblen"`
+	K      int   `json:"k"`
+	Fi     int64 `json:"fi"`
+	ShFi   int64 `json:"shfi"`
+	Kind   int   `json:"kind"`   // 1 rsync, 2 bsdiff
+	MOff   int64 `json:"moff"`   // reader offset (decompressed stream)
+	SrcOff int64 `json:"srcoff"` // offset of the source checkpoint
+	WOff   int64 `json:"woff"`   // writer checkpoint offset (bytes of the new file produced)
+	OldOff int64 `json:"oldoff"` // bsdiff: old offset
+	Tgt    int64 `json:"tgt"`    // bsdiff: target index
+	OvRead int64 `json:"ovread"` // overlay writer: read offset (-1 if not an overlay writer)
+	OvOff  int64 `json:"ovoff"`  // overlay writer: overlay offset
+	NTrans int   `json:"ntrans"` // overlay bowl lists
+	NOver  int   `json:"nover"`
+	NMove  int   `json:"nmove"`
+	GobLen int   `json:"goblen"`
 }
 
 type resumeTest struct {
-	K      int      `json:"k"`      // checkpoint resumed from (index in the always-save run)
-	Lag    int      `json:"lag"`    // the interrupted run had reached checkpoint k+lag
-	Trunc  []string `json:"trunc"`  // "path:kept/had" for every file that lost unsynced bytes
-	Chain  int      `json:"chain"`  // further stop/resume rounds after the first resume
-	Err    string   `json:"err"`
-	Out    []string `json:"out"`
-	Stops  int      `json:"stops"`
+	K     int      `json:"k"`     // checkpoint resumed from (index in the always-save run)
+	Lag   int      `json:"lag"`   // the interrupted run had reached checkpoint k+lag
+	Trunc []string `json:"trunc"` // "path:kept/had" for every file that lost unsynced bytes
+	Chain int      `json:"chain"` // further stop/resume rounds after the first resume
+	Err   string   `json:"err"`
+	Out   []string `json:"out"`
+	Stops int      `json:"stops"`
 }
 
 type c03Line struct {
-	Case      int          `json:"case"`
-	Desc      string       `json:"desc"`
-	Algo      string       `json:"algo"`
-	Q         int32        `json:"q"`
-	Optimized bool         `json:"optimized"`
-	Bowl      string       `json:"bowl"`
-	TSizes    []int64      `json:"tsizes"`
-	SSizes    []int64      `json:"ssizes"`
-	TPaths    []string     `json:"tpaths"`
-	SPaths    []string     `json:"spaths"`
-	Msgs      []opFact     `json:"msgs"`
-	Decoded   bool         `json:"decoded"`
-	CEnd      int64        `json:"cend"` // offset after the two containers
-	Cps       []cpInfo     `json:"cps"`
-	RefErr    string       `json:"referr"`
-	RefOut    []string     `json:"refout"`
-	New       []string     `json:"new"`
-	Tests     []resumeTest `json:"tests"`
-	PreCommitUntouched bool `json:"precommit_untouched"` // overlay: the old build is unmodified right before Commit
+	Case               int          `json:"case"`
+	Desc               string       `json:"desc"`
+	Algo               string       `json:"algo"`
+	Q                  int32        `json:"q"`
+	Optimized          bool         `json:"optimized"`
+	Bowl               string       `json:"bowl"`
+	TSizes             []int64      `json:"tsizes"`
+	SSizes             []int64      `json:"ssizes"`
+	TPaths             []string     `json:"tpaths"`
+	SPaths             []string     `json:"spaths"`
+	Msgs               []opFact     `json:"msgs"`
+	Decoded            bool         `json:"decoded"`
+	CEnd               int64        `json:"cend"` // offset after the two containers
+	Cps                []cpInfo     `json:"cps"`
+	RefErr             string       `json:"referr"`
+	RefOut             []string     `json:"refout"`
+	New                []string     `json:"new"`
+	Tests              []resumeTest `json:"tests"`
+	PreCommitUntouched bool         `json:"precommit_untouched"` // overlay: the old build is unmodified right before Commit
 }
 
 type saveConsumer struct {
@@ -440,7 +440,10 @@ func runResumeTest(rng *rand.Rand, root, oldDir, bowlKind string, patch []byte, 
 			}
 			return patcher.AfterSaveContinue, nil
 		}}
-		ar := realApplyPatch(patch, ws.opts(cons, cp))
+		o := ws.opts(cons, cp)
+		// (the patch may be served by a source that can only restart on coarse boundaries, or from the start)
+		o.Gran = []int64{1, 1, 1, 65536, 1 << 30}[rng.Intn(5)]
+		ar := realApplyPatch(patch, o)
 		if ar.Stopped && last != nil {
 			rt.Chain++
 			rt.Stops++
